@@ -124,10 +124,74 @@ fn sh_cond(r: &RuleAst, c: &Cond) -> Sh {
         Cond::Or(a, b) => Sh::Disj(vec![sh_cond(r, a), sh_cond(r, b)]),
         Cond::Not(a) => Sh::Neg(Box::new(sh_cond(r, a))),
         Cond::Paren(a) => sh_cond(r, a),
-        Cond::All(x) => Sh::CQuant(Box::new(r.ident(x).map(sh_ident).unwrap_or(Sh::Leaf)), false),
-        Cond::Of(x, n) => Sh::CQuant(Box::new(r.ident(x).map(sh_ident).unwrap_or(Sh::Leaf)), *n == 0),
+        Cond::All(x) | Cond::Of(x, _) => {
+            let zero = matches!(c, Cond::Of(_, 0));
+            match r.ident(x) {
+                // shapes the optimiser either cannot restructure or merges completely (then the
+                // solver counts per needle): the quantifier is not a trigger
+                Some(i) if quantifier_shape_stable(i) => {
+                    if zero {
+                        Sh::Neg(Box::new(Sh::Leaf))
+                    } else if matches!(c, Cond::All(_)) {
+                        // all() yields its first non-true member: a conjunction as far as
+                        // false-vs-missing under a negation is concerned
+                        Sh::Conj(vec![Sh::Leaf, Sh::Leaf])
+                    } else {
+                        // of(n >= 1) is a count, its non-true result does not depend on order
+                        Sh::Leaf
+                    }
+                }
+                Some(i) => Sh::CQuant(Box::new(sh_ident(i)), zero),
+                None => Sh::Leaf,
+            }
+        }
         Cond::Cmp(..) => Sh::Leaf,
     }
+}
+
+/// Identifier shapes under a condition-level quantifier that optimisation leaves countable:
+/// >= 2 operands, each a single plain-key string pattern, and either all on pairwise distinct
+/// fields (nothing can be merged) or all on one field and in one batch class (everything is
+/// merged into one automaton / regex set, which match_all / match_of count per needle).
+pub fn quantifier_shape_stable(i: &Ident) -> bool {
+    use crate::refi::{parse_pattern, PKind};
+    let ops: Vec<&(Key, RVal)> = match i {
+        Ident::Map(es) => es.iter().collect(),
+        Ident::Seq(s) => {
+            if s.iter().any(|m| m.len() != 1) {
+                return false;
+            }
+            s.iter().map(|m| &m[0]).collect()
+        }
+    };
+    if ops.len() < 2 {
+        return false;
+    }
+    let mut classes = vec![];
+    for (k, v) in &ops {
+        if k.modi != KMod::None || k.field.contains('.') || k.field.contains('[') {
+            return false;
+        }
+        let RVal::Str(p) = v else { return false };
+        let Ok(pat) = parse_pattern(p, false) else { return false };
+        let class = match (&pat.kind, pat.insens) {
+            (PKind::Num(..), _) | (PKind::Any, _) => return false,
+            (PKind::Exact(x), _) if x.is_empty() => return false,
+            (PKind::Regex(_), false) => 2,
+            (PKind::Regex(_), true) => 3,
+            (_, false) => 0,
+            (_, true) => 1,
+        };
+        classes.push(class);
+    }
+    let fields: Vec<&String> = ops.iter().map(|(k, _)| &k.field).collect();
+    let mut distinct = fields.clone();
+    distinct.sort();
+    distinct.dedup();
+    if distinct.len() == fields.len() {
+        return true;
+    }
+    distinct.len() == 1 && classes.iter().all(|c| *c == classes[0])
 }
 
 fn contains_structure(s: &Sh) -> bool {
@@ -235,6 +299,41 @@ pub fn strip_double_negations(r: &RuleAst, through_idents: bool) -> RuleAst {
     n.cond = cond;
     n.idents.extend(extra);
     n
+}
+
+/// `triggers` plus the document-dependent part of the condition-quantifier finding: a same-field
+/// identifier that is merged completely is counted per needle *within one value*; when the
+/// field holds an array the unoptimised members may be satisfied by different elements (D7 on
+/// arrays).
+pub fn triggers_on(r: &RuleAst, doc: &DVal) -> BTreeSet<&'static str> {
+    let mut trig = triggers(r);
+    fn quants(c: &Cond, out: &mut Vec<String>) {
+        match c {
+            Cond::All(x) | Cond::Of(x, _) => out.push(x.clone()),
+            Cond::And(a, b) | Cond::Or(a, b) => {
+                quants(a, out);
+                quants(b, out);
+            }
+            Cond::Not(a) | Cond::Paren(a) => quants(a, out),
+            _ => {}
+        }
+    }
+    let mut qs = vec![];
+    quants(&r.cond, &mut qs);
+    for x in qs {
+        if let Some(i) = r.ident(&x) {
+            if quantifier_shape_stable(i) {
+                let fields: Vec<String> = match i {
+                    Ident::Map(es) => es.iter().map(|(k, _)| k.field.clone()).collect(),
+                    Ident::Seq(ms) => ms.iter().map(|m| m[0].0.field.clone()).collect(),
+                };
+                if fields.iter().any(|f| fields.iter().filter(|g| *g == f).count() > 1 && matches!(doc.get(f), Some(DVal::Arr(_)))) {
+                    trig.insert("condition-quantifier");
+                }
+            }
+        }
+    }
+    trig
 }
 
 /// Sub-rules used for the T-preservation probes: every identifier on its own and every
@@ -346,7 +445,7 @@ fn report(rep: &mut Report, ast: &RuleAst, text: &str, doc: &DVal, sw: Sw, cfg: 
     let what = differs(&sr, &sd, msw, tries * 2).unwrap_or_else(|| first.to_string());
     let st = sr.to_text().unwrap_or_else(|| text.to_string());
     let tagk = gen::tag_key(&gen::tags(&sr));
-    let trig = triggers(&sr);
+    let trig = triggers_on(&sr, &sd);
     let mk_case = |extra: serde_json::Value| {
         mon::case(&st, &sd, Some(msw), json!("same verdict as unoptimised"), json!(what), json!({"original_rule": text, "original_doc": doc.to_json_text(), "found_with_switches": sw.name(), "triggers": trig.iter().cloned().collect::<Vec<_>>(), "stratum": extra}))
     };
@@ -368,7 +467,7 @@ fn report(rep: &mut Report, ast: &RuleAst, text: &str, doc: &DVal, sw: Sw, cfg: 
     }
     // (c) T-preservation: every trigger-free sub-rule of the original rule must be preserved
     for sub in sub_rules(ast) {
-        if !triggers(&sub).is_empty() {
+        if !triggers_on(&sub, doc).is_empty() {
             continue;
         }
         rep.count("t_preservation_probes");
@@ -409,6 +508,50 @@ fn report(rep: &mut Report, ast: &RuleAst, text: &str, doc: &DVal, sw: Sw, cfg: 
     rep.violation("known", &format!("c01-known:{}", which), &format!("{} with switches [{}] (minimal [{}]); attributed to open finding '{}'", what, sw.name(), msw.name(), which), mk_case(json!("S1")));
 }
 
+/// a condition-level quantifier over an identifier of a stable shape (see
+/// `quantifier_shape_stable`): these reach the optimised per-needle counting arms (merged
+/// automaton / regex set under all()/of()) inside the clean stratum
+fn stable_quantifier_rule(rng: &mut Rng, cfg: &GenCfg) -> RuleAst {
+    let k = 2 + rng.below(4);
+    let same_field = rng.chance(65);
+    let class = rng.below(4);
+    let mut ops: Entries = vec![];
+    for i in 0..k {
+        let w = loop {
+            let w = gen::word(rng);
+            if !w.is_empty() {
+                break w;
+            }
+        };
+        let body = match class {
+            0 | 1 => match rng.below(4) {
+                0 => w,
+                1 => format!("{}*", w),
+                2 => format!("*{}", w),
+                _ => format!("*{}*", w),
+            },
+            _ => format!("?{}", rng.pick(gen::REGEXES)),
+        };
+        let pat = if class == 1 || class == 3 { format!("i{}", body) } else { body };
+        let f = if same_field { "a".to_string() } else { ["a", "b", "c", "d", "num", "flag"][i].to_string() };
+        ops.push((Key::plain(&f), RVal::Str(pat)));
+    }
+    let x = if rng.chance(70) || same_field { Ident::Seq(ops.iter().map(|e| vec![e.clone()]).collect()) } else { Ident::Map(ops) };
+    let q = if rng.chance(35) { Cond::All("X".into()) } else { Cond::Of("X".into(), 1 + rng.below(k) as u64) };
+    let mut idents = vec![("X".to_string(), x)];
+    let cond = if rng.chance(50) {
+        idents.push(("Y".to_string(), gen::gen_ident(rng, &GenCfg { key_quant: false, ..cfg.clone() })));
+        if rng.chance(50) {
+            Cond::and(q, Cond::id("Y"))
+        } else {
+            Cond::or(Cond::id("Y"), q)
+        }
+    } else {
+        q
+    };
+    RuleAst { idents, cond, tp: vec![], tn: vec![] }
+}
+
 pub fn run(ctx: &Ctx) -> i32 {
     let shards = ctx.size(64, 1024);
     let rules_per_shard = ctx.size(500, 1500);
@@ -426,7 +569,12 @@ pub fn run(ctx: &Ctx) -> i32 {
             }
             // three quarters of the slots insist on a rule from the clean stratum S0
             let want_s0 = rng.chance(78);
-            let mut ast = gen::gen_rule(&mut rng, &gcfg);
+            let mut ast = match rng.below(100) {
+                0..=9 => stable_quantifier_rule(&mut rng, &gcfg),
+                // blocks over one field in several identifiers (merged by coalesce + shake)
+                10..=17 => gen::nested_family_rule(&mut rng, &gcfg),
+                _ => gen::gen_rule(&mut rng, &gcfg),
+            };
             if want_s0 {
                 for _ in 0..12 {
                     if triggers(&ast).is_empty() {
